@@ -38,6 +38,9 @@ type Machine struct {
 	FailAt   map[uint64]bool
 	Dead     bool           // set once the crash sentinel fired; all later ops are dropped
 	Yield    func(op string) // cooperative scheduler hook, called (unlocked) before every op incl. reads
+	// YieldAfterSync: also yield AFTER a synced write was applied and before the call returns: the fsync window of
+	// a real engine (the batch is already visible to readers, the writer still waits for durability)
+	YieldAfterSync bool
 	Counters map[string]int
 	OnOp     func(disk string, kind string, n int) // observer for traces (must not draw)
 }
@@ -325,6 +328,9 @@ func (db *DB) mutate(kind string, sync bool, ops []kv) error {
 	d.mu.Unlock()
 	if obs != nil {
 		obs(d.Name, kind, len(ops))
+	}
+	if sync && m.YieldAfterSync {
+		db.yield(kind + ".fsync-window")
 	}
 	return nil
 }
